@@ -203,6 +203,12 @@ fn is_canonical_atom(f: &mut Cursor<&[u8]>, first_byte: u8) -> bool {
     atom_len >= min_value
 }
 
+/// Verification hook: the private canonical-prefix check, for out-of-tree harnesses. Never used by clvmr.
+#[cfg(feature = "verif-hooks")]
+pub fn verif_is_canonical_atom(f: &mut Cursor<&[u8]>, first_byte: u8) -> bool {
+    is_canonical_atom(f, first_byte)
+}
+
 pub fn is_canonical_serialization(b: &[u8]) -> bool {
     let mut f = Cursor::new(b);
     let mut counter = 1;
